@@ -50,6 +50,10 @@ def main(argv):
     except ModuleNotFoundError:
         print("ANALYSIS-ERROR property=%s no check registered" % prop)
         return 2
+    except Exception:
+        traceback.print_exc()
+        print("ANALYSIS-ERROR property=%s the checker module cannot be loaded" % prop)
+        return 2
     try:
         repo = Repo()
         ctx = core.Ctx(prop, repo, tier)
